@@ -1408,3 +1408,17 @@ _reg('cooler.core._rangequery.BaseRangeQuery2D.to_frame', 'cooler.core._rangeque
 def ref(self):
     return frame_slice_from_dict(self.get(), self.field)
 ''')
+
+
+_reg('cooler.cli.cload.hiclib', 'cooler.cli.cload',
+     'hiclib loader: bins parsed from the BINS argument, metadata read from the JSON file, the HDF5 aggregator over the '
+     'opened pairs file with the parsed chromosome sizes / bins / chunk size, ordered creation', '''
+def ref(bins, pairs_path, cool_path, metadata, assembly, chunksize):
+    chromsizes, bins = parse_bins(bins)
+    if metadata is not None:
+        with open(metadata) as f:
+            metadata = json.load(f)
+    with h5py.File(pairs_path, "r") as h5pairs:
+        iterator = HDF5Aggregator(h5pairs, chromsizes, bins, chunksize)
+        create_cooler(cool_path, bins, iterator, metadata=metadata, assembly=assembly, ordered=True)
+''')
